@@ -315,6 +315,14 @@ pub fn search(tier: &str, seed: u64, s: &mut Search) {
             *rng.pick(&["1", "4", "9.5", "0.3", "22", "40"]), *rng.pick(&["butt", "round", "square", "square"]), *rng.pick(&["miter", "round", "bevel", "miter-clip"]), *rng.pick(&["1", "4", "10", "40"])
         );
         let leaf = match i % 8 {
+            0 if i % 16 >= 8 => {
+                // an open, slanted polyline with a wide stroke: every cap kind with every join kind (the stroke box has
+                // to account for both, whichever shortcut is taken for one of them)
+                format!(
+                    r#"<path d="M {x} {y} l {} {} l {} -{}" fill="none" stroke="blue" stroke-width="{}" stroke-linecap="{}" stroke-linejoin="{}" stroke-miterlimit="4"/>"#,
+                    rng.range(10, 30), rng.range(10, 30), rng.range(10, 30), rng.range(3, 12), *rng.pick(&["22", "30", "40"]), *rng.pick(&["square", "square", "round", "butt"]), *rng.pick(&["round", "bevel", "miter"])
+                )
+            }
             0 => format!(r#"<rect x="{x}" y="{y}" width="{sw}" height="{sh}" fill="red"{stroke}/>"#),
             1 if i % 16 < 8 => {
                 // a sharp "V": the miter tip reaches far beyond the geometry, whatever the caps are
